@@ -1363,6 +1363,19 @@ func (it *Interp) selector(x *ast.SelectorExpr, env *Env) Value {
 			}
 			return it.fieldCell(x, base, sel.Index()).v
 		case types.MethodVal:
+			// a pointer-receiver method on an addressable operand that is neither a pointer nor a struct
+			// (a named slice, map or basic type kept in a variable or field): the receiver is its address
+			if fn, ok := sel.Obj().(*types.Func); ok && len(sel.Index()) == 1 {
+				if sig, ok := fn.Type().(*types.Signature); ok && sig.Recv() != nil {
+					if _, ptrRecv := sig.Recv().Type().(*types.Pointer); ptrRecv {
+						if tv, ok := it.info.Types[x.X]; ok && tv.Type != nil && tv.Addressable() {
+							if _, isPtr := tv.Type.Underlying().(*types.Pointer); !isPtr && !isStructType(tv.Type) {
+								return it.methodValue(x, &Ptr{it.lvalue(x.X, env)}, sel)
+							}
+						}
+					}
+				}
+			}
 			base := it.eval(x.X, env)
 			return it.methodValue(x, base, sel)
 		}
